@@ -287,7 +287,7 @@ def run(ctx):
     good = [c for c in allc if ver[c['id']]['ok'] and c['dmap']][:6]
     badc = []
     for k, c in enumerate(good):
-        c2 = json.loads(json.dumps(c)); c2['id'] = 10**9 + k
+        c2 = core.jcopy(c); c2['id'] = 10**9 + k
         if k % 3 == 0:
             # move one pixel of a child into the background
             ch = c2['dmap'][0][1][0]
